@@ -136,6 +136,15 @@ Cands(m, q)      == CandsW(M, m, q)
 Select(m, q)     == SelectW(M, m, q)
 SelectPath(m, p) == SelectW(MatchesPool, m, p)
 
+\* ---- Router.Routes() / IterateRoutes / String(): the views of the table -------------------------------
+\* operational: walk the three tiers (one entry per method key a route was filed under);
+\* declarative: every registered route, once per method it was registered for - nothing lost, nothing twice
+ListingOp    == { <<e.r, e.m>> : e \in stable } \cup { <<regular[y].r, regular[y].m>> : y \in 1..Len(regular) }
+                \cup { <<irregular[y].r, irregular[y].m>> : y \in 1..Len(irregular) }
+ListingCount == Cardinality(stable) + Len(regular) + Len(irregular)
+Listing      == UNION { { <<k, m>> : m \in tbl[k].ms } : k \in 1..Len(tbl) }
+ListingOK    == ListingOp = Listing /\ ListingCount = Cardinality(Listing)
+
 Agree    == \A m \in ReqMethods : \A q \in 1..NPaths : Lookup(m, q) = Select(m, q)
 \* the clauses of the statement, separately (implied by Agree, kept for readable counterexamples)
 Sound    == \A m \in ReqMethods : \A q \in 1..NPaths :
